@@ -599,6 +599,162 @@ func c11L3(r *Run, rep *core.Report) {
 		}
 	}
 	rep.MinCount("C11.L3", "root bucket selections", n, 6)
+	c11Floor(r, rep)
+}
+
+// c11Floor: the table never becomes shorter than the recorded minimum, and that minimum is real. (a) every
+// constructor stores into the map's minimum-length field the length of the table it installs (a forgotten store
+// leaves 0: Clear then installs a zero-length table and the next operation indexes out of range); (b) in resize a
+// table of half the current length is created only on paths that established 'current length > minimum' - with a
+// weaker guard (>=, or an alternative that by-passes it) repeated shrinks halve the table down to length 0.
+func c11Floor(r *Run, rep *core.Report) {
+	for _, mm := range r.M.Maps {
+		rz := mm.Resize
+		if rz == nil {
+			continue
+		}
+		// the minimum-length field: the int field of the map struct whose load sizes a new table or bounds the shrink
+		minF := ""
+		core.Instrs(rz, func(in ssa.Instruction) {
+			c, ok := in.(*ssa.Call)
+			if !ok || core.Callee(c) != mm.NewTable || len(c.Call.Args) != 1 {
+				return
+			}
+			if ld, isLd := core.StripConv(c.Call.Args[0]).(*ssa.UnOp); isLd && ld.Op == token.MUL {
+				if a := core.Addr(ld.X); a.Owner == mm.Name {
+					minF = a.Field
+				}
+			}
+		})
+		if minF == "" {
+			rep.Note("C11.L3: " + mm.Name + ": no minimum-length field found (resize never sizes a table from the map header); floor rules not evaluated")
+			continue
+		}
+		// (a) constructors
+		for _, ctor := range mm.Ctor {
+			okStore := false
+			why := "the constructor never stores the field"
+			core.Instrs(ctor, func(in ssa.Instruction) {
+				st, ok := in.(*ssa.Store)
+				if !ok {
+					return
+				}
+				if a := core.Addr(st.Addr); a.Owner != mm.Name || a.Field != minF {
+					return
+				}
+				v := core.StripConv(st.Val)
+				// len(table.buckets) of a table built here, or the value the table was built with
+				if c, isCall := v.(*ssa.Call); isCall && core.IsBuiltinCall(c) == "len" {
+					if ld, isLd := c.Call.Args[0].(*ssa.UnOp); isLd && core.Addr(ld.X).Owner == mm.TableT {
+						okStore = true
+						return
+					}
+				}
+				used := false
+				core.Instrs(ctor, func(in2 ssa.Instruction) {
+					if c2, isCall := in2.(*ssa.Call); isCall && core.Callee(c2) == mm.NewTable && len(c2.Call.Args) == 1 && core.StripConv(c2.Call.Args[0]) == v {
+						used = true
+					}
+				})
+				if used {
+					okStore = true
+					return
+				}
+				why = "the value stored is not the length of the table the constructor installs"
+			})
+			rep.Check(okStore, "C11.L3", fn(ctor)+" records the minimum table length", r.P.Pos(ctor.Pos()), "the constructor stores the installed table's length into "+mm.Name+"."+minF,
+				"the minimum table length ("+mm.Name+"."+minF+") is not recorded: "+why+"; it stays 0, Clear and shrink then install ever smaller tables down to length 0, and the next operation indexes an empty bucket array")
+		}
+		// (b) halving only above the floor
+		type fl struct{ Above bool }
+		isMinLoad := func(v ssa.Value) bool {
+			ld, ok := core.StripConv(v).(*ssa.UnOp)
+			if !ok || ld.Op != token.MUL {
+				return false
+			}
+			a := core.Addr(ld.X)
+			return a.Owner == mm.Name && a.Field == minF
+		}
+		for _, sp := range specsFor(r, rz) {
+			m := &core.Machine[fl]{P: r.P, Fn: rz, Spec: sp, Inline: helperInline(r)}
+			bad := ""
+			var badIn ssa.Instruction
+			nHalf := 0
+			m.Step = func(ctx *core.Ctx[fl], s fl, in ssa.Instruction) []fl {
+				c, ok := in.(*ssa.Call)
+				if !ok || core.Callee(c) != mm.NewTable || len(c.Call.Args) != 1 {
+					return []fl{s}
+				}
+				if b, isB := core.StripConv(c.Call.Args[0]).(*ssa.BinOp); isB {
+					k, isK := core.ConstInt(b.Y)
+					if isK && ((b.Op == token.SHR && k == 1) || (b.Op == token.QUO && k == 2)) {
+						nHalf++
+						if !s.Above && bad == "" {
+							bad = "a table of half the current length is created on a path that has not established 'current length > recorded minimum': the table can be halved below its floor, down to length 0"
+							badIn = in
+						}
+					}
+				}
+				return []fl{s}
+			}
+			m.Edge = func(ctx *core.Ctx[fl], s fl, from *ssa.BasicBlock, idx int) (fl, bool) {
+				iff, ok := from.Instrs[len(from.Instrs)-1].(*ssa.If)
+				if !ok {
+					return s, true
+				}
+				cond := iff.Cond
+				neg := false
+				for {
+					if u, isU := cond.(*ssa.UnOp); isU && u.Op == token.NOT {
+						neg = !neg
+						cond = u.X
+						continue
+					}
+					break
+				}
+				b, isB := cond.(*ssa.BinOp)
+				if !isB {
+					return s, true
+				}
+				// len > min (true edge), min < len (true edge), len <= min (false edge), min >= len (false edge)
+				var aboveOnTrue, known bool
+				switch {
+				case isMinLoad(b.Y) && !isMinLoad(b.X):
+					switch b.Op {
+					case token.GTR:
+						aboveOnTrue, known = true, true
+					case token.LEQ:
+						aboveOnTrue, known = false, true
+					}
+				case isMinLoad(b.X) && !isMinLoad(b.Y):
+					switch b.Op {
+					case token.LSS:
+						aboveOnTrue, known = true, true
+					case token.GEQ:
+						aboveOnTrue, known = false, true
+					}
+				}
+				if known {
+					if neg {
+						aboveOnTrue = !aboveOnTrue
+					}
+					if (idx == 0) == aboveOnTrue {
+						s.Above = true
+					}
+				}
+				return s, true
+			}
+			m.Run()
+			if nHalf == 0 {
+				continue
+			}
+			pos := r.P.Pos(rz.Pos())
+			if badIn != nil {
+				pos = r.P.InstrPos(badIn)
+			}
+			rep.Check(bad == "", "C11.L3", fn(rz)+sp.String(rz)+" shrinks only above the floor", pos, "the halved table is created only after 'current length > minimum' held", bad)
+		}
+	}
 }
 
 func collectFields(mm *core.MapModel, v ssa.Value, out map[ssa.Value]string) {
